@@ -2,6 +2,7 @@
 The judge, part 6: unmarshalling of WKD-IBE objects and LQ-IBE.
 -/
 import JediVerif.Driver.Judge5
+import JediVerif.Impl.Lqibe
 
 namespace Jedi.Driver
 open Jedi.Impl Jedi.Wk
@@ -39,6 +40,9 @@ def unmarshalKey (comp : Bool) (l : Nat) : BR WKey := do
   let b ← slots l []
   -- `unmarshal` leaves `bsig` untouched when the key has no signature support: not compared in that case
   pure { a0 := a0, a1 := a1, signatures := sg, bsig := bsig, b := b }
+
+/-- the concrete environment of LQ-IBE: Spec pairing, compressed encoders, big-endian Fq12 bytes -/
+def lqEnv : Lq.Env G1Pt G2Pt Fq12 := { e := ateSpec, enc1 := encG1 true, enc2 := encG2 true, encT := fq12Bytes }
 
 def dummyParams : ParamsRec :=
   { pp := { g := .inf, g1 := .inf, g2 := .inf, g3 := .inf, pairing := 1, hsig := .inf, signatures := false, h := [] }, alpha := none }
@@ -174,7 +178,7 @@ def judgeScheme2 (op : String) (out : List String) : PS Bool := do
     let stream ← liftP nextBytes
     let (s, rs) := xrand { bytes := stream }
     let (p, rs) ← liftE (sampleG2 rs)
-    let sp := Pt.smulFast s p
+    let sp := (Lq.setup g2Ops p s).sp
     setSt { st with lqParams := st.lqParams.push { p := p, sp := sp }, lqMsks := st.lqMsks.push s }
     liftE (runO (do
       if (← oNat) != st.lqParams.size then throw "object id"
@@ -197,7 +201,7 @@ def judgeScheme2 (op : String) (out : List String) : PS Bool := do
   | "lq_keygen" =>
     let mi ← liftP nextNat; let ii ← liftP nextNat
     let s := st.lqMsks[mi]?.getD 0; let qd := st.lqIds[ii]?.getD .inf
-    let sq := Pt.smulFast s qd
+    let sq := Lq.keygen g1Ops s qd
     setSt { st with lqSks := st.lqSks.push sq }
     liftE (runO (do oCheck (!((← oNat) != st.lqSks.size)) "object id"; expectEq "secret key = s·Q" (← oA1) sq; oEnd) out); pure true
   | "lq_encrypt" =>
@@ -205,9 +209,7 @@ def judgeScheme2 (op : String) (out : List String) : PS Bool := do
     let pr ← match st.lqParams[pi]? with | some p => pure p | none => failPS "lq params index"
     let qd := st.lqIds[ii]?.getD .inf
     let (rr, rs) := xrand { bytes := stream }
-    let rp := Pt.smulFast rr pr.p
-    let rsp := Pt.smulFast rr pr.sp
-    let buf := encG1 true qd ++ encG2 true rp ++ fq12Bytes (ateSpec qd rsp)
+    let (rp, buf) := Lq.encryptBuf g2Ops lqEnv { p := pr.p, sp := pr.sp } qd rr
     setSt { st with lqCts := st.lqCts.push (rp, some buf) }
     liftE (runO (do
       if (← oNat) != st.lqCts.size then throw "object id"
@@ -224,7 +226,7 @@ def judgeScheme2 (op : String) (out : List String) : PS Bool := do
     let ci ← liftP nextNat; let si ← liftP nextNat; let ii ← liftP nextNat; let klen ← liftP nextNat
     let (rp, encBuf) := st.lqCts[ci]?.getD (.inf, none)
     let sq := st.lqSks[si]?.getD .inf; let qd := st.lqIds[ii]?.getD .inf
-    let buf := encG1 true qd ++ encG2 true rp ++ fq12Bytes (ateSpec sq rp)
+    let buf := Lq.decryptBuf lqEnv rp sq qd
     liftE (runO (do
       if (← oTok) != bytesToHex (fnv buf klen) then throw "symmetric key is not hash_fill of the expected buffer"
       if (← oTok) != "1" then throw "wrote past the requested key length"
